@@ -97,14 +97,17 @@ def orderbook_tail_specs(seed, n, tag, split=True):
 
 
 # ------------------------------------------------------------------ model builders vs. <Asset>.setup_optim_problem
-ASSET_IMPORTS = 'Num LP Cert Mapping Dcf Grid Assets StorageProofs Periodic Portfolio Corr Build'
+ASSET_IMPORTS = 'Num LP Cert Mapping Dcf Grid Assets StorageProofs Periodic Portfolio Corr Build Plant'
 ASSET_NAMES = ['accepted/rejected alike', 'c', 'l', 'u', 'rows', 'mapping']
 
 
 def modelled(a):
     """asset specs the Gallina builders cover"""
-    if a['kind'] in ('Plant', 'CHPAsset', 'LinkedAsset'):
+    if a['kind'] in ('LinkedAsset',):
         return False
+    if a['kind'] in ('Plant', 'CHPAsset'):
+        # start / shutdown ramp profiles and frequencies other than the grid's are not modelled
+        return not any(a.get(k) for k in ('start_ramp_lower_bounds', 'shutdown_ramp_lower_bounds', 'freq', 'periodicity'))
     if a.get('block_size'):
         return False
     if a['kind'] == 'ScaledAsset':
